@@ -22,6 +22,7 @@ fn opts(tier: Tier) -> GenOpts {
         strata: [5, 0, 4, 1],
         precedence: false,
         avoid_insert: false,
+        pad_tokens: true,
     }
 }
 
